@@ -1123,4 +1123,88 @@ theorem getBranch_no_crash_no_pending (cfg : Cfg) (s : Bytes) :
   repeat' split
   all_goals simp
 
+/-! ### round 2: over-long requests, split requests, substitution across `fread` chunks -/
+
+theorem room_nil : room [] = sizeofBuf - readSlack := by simp [room]
+theorem room_nil_pos : room [] ≠ 0 := by decide
+
+theorem AccEquiv_closed_right {x : AccRes} {w : CloseWhy} (h : AccEquiv x (.closed w)) : x = .closed w := by
+  cases x <;> simp only [AccEquiv] at h
+  rw [h]
+
+theorem AccEquiv_pending_right {x : AccRes} (h : AccEquiv x .pending) : x = .pending := by
+  cases x <;> simp only [AccEquiv] at h
+  rfl
+
+/-- one piece that fills the window without a blank line: closed as "buffer full" -/
+theorem single_overlong (b : Bytes) (e : SockEnd) (hlen : b.length ≥ room [])
+    (hnt : hasTerminator (cstr (b.take (room []))) = false) :
+    (accumulate [] [b] e).1 = .closed .bufferFull := by
+  have hr := room_nil_pos
+  have hb : b.isEmpty = false := by
+    cases b with
+    | nil => simp at hlen; exact absurd hlen hr
+    | cons _ _ => rfl
+  rw [acc_cons]
+  simp only [hr, ↓reduceIte, hb, Bool.false_eq_true, List.nil_append, hnt]
+  by_cases hgt : b.length > room []
+  · simp [hgt]
+  · simp only [hgt, ↓reduceIte]
+    apply acc_full
+    have : (b.take (room [])).length = room [] := by rw [List.length_take]; omega
+    simp only [room]
+    simp only [room, List.length_nil] at *
+    omega
+
+/-- one piece without a blank line that does not fill the window, peer still there: nothing happens -/
+theorem single_pending (b : Bytes) (hne : b ≠ []) (hlen : b.length < room [])
+    (hnt : hasTerminator (cstr b) = false) : (accumulate [] [b] .eagain).1 = .pending := by
+  have hr := room_nil_pos
+  have hb : b.isEmpty = false := by simpa using hne
+  have ht : b.take (room []) = b := List.take_of_length_le (by omega)
+  rw [acc_cons]
+  simp only [hr, ↓reduceIte, hb, Bool.false_eq_true, List.nil_append, ht, hnt]
+  have : ¬ b.length > room [] := by omega
+  simp only [this, ↓reduceIte]
+  rw [acc_nil]
+  have : room b ≠ 0 := by
+    simp only [room, List.length_nil] at hlen ⊢; omega
+  simp [this]
+
+/-! substitution -/
+
+theorem take_append_length {α} : ∀ (l s : List α) (j : Nat), (l ++ s).take (l.length + j) = l ++ s.take j
+  | [], s, j => by simp
+  | a :: l, s, j => by
+    have : (a :: l).length + j = (l.length + j) + 1 := by simp only [List.length_cons]; omega
+    rw [this]
+    simp only [List.cons_append, List.take_succ_cons]
+    rw [take_append_length l s j]
+
+theorem drop_append_length {α} : ∀ (l s : List α) (j : Nat), (l ++ s).drop (l.length + j) = s.drop j
+  | [], s, j => by simp
+  | a :: l, s, j => by
+    have : (a :: l).length + j = (l.length + j) + 1 := by simp only [List.length_cons]; omega
+    rw [this]
+    simp only [List.cons_append, List.drop_succ_cons]
+    exact drop_append_length l s j
+
+theorem substGo_plain_prefix (vals : List Bytes) : ∀ (p t : Bytes), (36 : UInt8) ∉ p →
+    substGo vals 0 (p ++ t) = p ++ substGo vals 0 t
+  | [], t, _ => rfl
+  | c :: p, t, h => by
+    have hc : c ≠ 36 := fun hc => h (hc ▸ List.mem_cons_self)
+    simp only [List.cons_append, substGo, hc, ↓reduceIte]
+    rw [substGo_plain_prefix vals p t (fun hp => h (List.mem_cons_of_mem _ hp))]
+
+theorem cstr_of_no_nul (b : Bytes) (h : ∀ x ∈ b, x ≠ 0) : cstr b = b := by
+  have := cstr_append_of_no_nul b [] h
+  simpa [cstr] using this
+
+theorem substChunk_no_nul (vals : List Bytes) (b : Bytes) (h : ∀ x ∈ b, x ≠ 0) :
+    substChunk vals b = substGo vals 0 b := by
+  unfold substChunk
+  rw [cstr_of_no_nul b h]
+  simp
+
 end VncModel.Httpd
